@@ -997,3 +997,14 @@ Proof. vm_compute. reflexivity. Qed.
 Example ex_join :
   builtin_apply 0 (str "join") [VArr (map VStr [str "a"; str "b"; str "c"]); VStr (str ", ")] = Ok (VStr (str "a, b, c")).
 Proof. vm_compute. reflexivity. Qed.
+
+(* The builtins count BYTES.  With "one-character pad" read as one Unicode character, the clause
+   "exactly the requested length" fails for a multi-byte character, and left/lpad/rpad can cut a
+   multi-byte character in half.  [195; 169] is the UTF-8 encoding of U+00E9. *)
+Theorem byte_semantics_witnesses :
+  builtin_apply 0 (str "lpad") [VStr (str "7"); VStr [195; 169]; gi 3] = Ok (VStr [195; 169; 195; 169; 55]) /\
+  slen [195; 169; 195; 169; 55] = 5 /\
+  builtin_apply 0 (str "left") [VStr [195; 169]; gi 1] = Ok (VStr [195]) /\
+  builtin_apply 0 (str "lpad") [VStr [195; 169; 120]; VStr (str "0"); gi 1] = Ok (VStr [195]) /\
+  builtin_apply 0 (str "len") [VStr [195; 169]] = Ok (gi 2).
+Proof. repeat split. Qed.
